@@ -124,7 +124,7 @@ def _run_with_model_traces(res, pid, mode, quick, args, gen_dir):
         gen_file = os.path.join(gen_dir, "model-traces.txt")
         limit = (3000 if pid == "C13" else 2000) if quick else 0
         rc, out = vlib.sh([drv, "gen", gen_file, str(limit), str(res.seed)], timeout=900)
-        m = re.search(r"GEN states=(\d+) transitions=(\d+) depth=(\d+) written=(\d+)", out)
+        m = re.search(r"GEN states=(\d+) transitions=(\d+) depth=(\d+) written=(\d+) toggles=(\d+)", out)
         if rc == 0 and m:
             explo = {
                 "configuration": "receiver 1, transmitter 2 (event message, no ticker), application thread 0x10; content in {0,1}; "
@@ -133,7 +133,10 @@ def _run_with_model_traces(res, pid, mode, quick, args, gen_dir):
                          "tried in every state)",
                 "states": int(m.group(1)), "transitions": int(m.group(2)), "bfs_depth": int(m.group(3)),
                 "traces_replayed": int(m.group(4)),
-                "replay": "every transition" if limit == 0 else "seeded sample of %d transitions" % limit,
+                "replay": "every transition" if limit == 0 else
+                          "deterministic set of %s application toggles (SetFlag / WakeSend at every transmitter pc of T0,S1..S4,T1,SEL "
+                          "x flag x last-read x token x application state, incl. the second toggle of a pair inside the window after "
+                          "the flag read) + seeded sample of %d transitions" % (m.group(5), limit),
             }
             args = args + ["dir=" + gen_file]
         else:
